@@ -432,6 +432,7 @@ func (e *expression) Value(ctx *hcl.EvalContext) (cty.Value, hcl.Diagnostics) {
 		attrs := map[string]cty.Value{}
 		attrRanges := map[string]hcl.Range{}
 		known := true
+		var marks []cty.ValueMarks
 		for _, jsonAttr := range v.Attrs {
 			// In this one context we allow keys to contain interpolation
 			// expressions too, assuming we're evaluating in interpolation
@@ -472,6 +473,8 @@ func (e *expression) Value(ctx *hcl.EvalContext) (cty.Value, hcl.Diagnostics) {
 				continue
 			}
 			if !name.IsKnown() {
+				_, nameMarks := name.Unmark()
+				marks = append(marks, nameMarks)
 				// This is a bit of a weird case, since our usual rules require
 				// us to tolerate unknowns and just represent the result as
 				// best we can but if we don't know the key then we can't
@@ -483,12 +486,21 @@ func (e *expression) Value(ctx *hcl.EvalContext) (cty.Value, hcl.Diagnostics) {
 				known = false
 				continue
 			}
+			// As in the native syntax, the marks of the keys apply to the
+			// object as a whole. A marked key must also not be quoted in
+			// diagnostics, since we don't know what the marks mean.
+			name, nameMarks := name.Unmark()
+			marks = append(marks, nameMarks)
 			nameStr := name.AsString()
 			if _, defined := attrs[nameStr]; defined {
+				nameDesc := fmt.Sprintf("An attribute named %q", nameStr)
+				if len(nameMarks) > 0 {
+					nameDesc = "An attribute with this name"
+				}
 				diags = append(diags, &hcl.Diagnostic{
 					Severity:    hcl.DiagError,
 					Summary:     "Duplicate object attribute",
-					Detail:      fmt.Sprintf("An attribute named %q was already defined at %s.", nameStr, attrRanges[nameStr]),
+					Detail:      fmt.Sprintf("%s was already defined at %s.", nameDesc, attrRanges[nameStr]),
 					Subject:     &jsonAttr.NameRange,
 					Expression:  e,
 					EvalContext: ctx,
@@ -501,9 +513,9 @@ func (e *expression) Value(ctx *hcl.EvalContext) (cty.Value, hcl.Diagnostics) {
 		if !known {
 			// We encountered an unknown key somewhere along the way, so
 			// we can't know what our type will eventually be.
-			return cty.DynamicVal, diags
+			return cty.DynamicVal.WithMarks(marks...), diags
 		}
-		return cty.ObjectVal(attrs), diags
+		return cty.ObjectVal(attrs).WithMarks(marks...), diags
 	case *nullVal:
 		return cty.NullVal(cty.DynamicPseudoType), nil
 	default:
